@@ -13,7 +13,7 @@ binary64 round-to-nearest-even (`rnd = rne`).
   fread <v>        FacadeAudio.volume guard       → ok:<val> | err:protocol
   rne <v>          binary64 rounding of a rational→ <val>
   raop <m> <ctx|none> <ops>   facade over RaopAudio → per-op event lists
-  mrp  <m> <vol> <ops>        facade over MrpAudio  → per-op event lists
+  mrp  <m> <a|b|r|n> <vol> <ops>  facade over MrpAudio, device volume capabilities → per-op event lists
   ops: `s:<v>` set, `u` up, `d` down, `r` read, `p:<v>` report, `t:<v|none>:<a|r>` stream start, receiver accepts / rejects volume before RECORD (raop only),
        `f:<v>` set refused by the receiver (raop only),
        `o:<v>` update for another output device (mrp only); comma separated, `-` = none
@@ -58,6 +58,7 @@ def Ev.str : Ev → String
   | .ret x => "ret:" ++ x.str
   | .tried x => "try:" ++ x.str
   | .late x => "late:" ++ x.str
+  | .key up => if up then "key:u" else "key:d"
   | .raised e => "raise:" ++ e.str
   | .logged e => "log:" ++ e.str
 
@@ -117,10 +118,13 @@ def handle (_ : Unit) (ws : List String) : Unit × String :=
     match rnd? m, (if c == "none" then some none else (fval? c).map some), ops? true os with
     | some r, some c, some os => ((), outStr (Raop.run r ⟨c⟩ os))
     | _, _, _ => ((), "bad-op")
-  | ["mrp", m, v, os] =>
-    match rnd? m, fval? v, ops? false os with
-    | some r, some v, some os => ((), outStr (Mrp.run r ⟨v⟩ os))
-    | _, _, _ => ((), "bad-op")
+  | ["mrp", m, c, v, os] =>
+    -- c: volume capabilities of the device: a = Absolute, b = Both, r = Relative, n = None
+    match rnd? m, (if c == "a" then some (true, false) else if c == "b" then some (true, true)
+                   else if c == "r" then some (false, true) else if c == "n" then some (false, false) else none),
+          fval? v, ops? false os with
+    | some r, some (ab, rl), some v, some os => ((), outStr (Mrp.runC r ab rl ⟨v⟩ os))
+    | _, _, _, _ => ((), "bad-op")
   | _ => ((), "bad-op")
 
 end PyatvModel.C20
